@@ -3,16 +3,18 @@
 The agent sees only the property text and its own scratch worktree (nothing from /verif)."""
 import json, sys
 pid = sys.argv[1]
-round2 = len(sys.argv) > 2 and sys.argv[2] == '2'
-wt = f'/tmp/wt/{pid}' + ('b' if round2 else '')
-out = f'/tmp/mut2/{pid}' if round2 else f'/tmp/mut/{pid}'
+rnd = sys.argv[2] if len(sys.argv) > 2 else '1'
+round2 = rnd == '2'
+round3 = rnd == '3'
+wt = f'/tmp/wt/{pid}' + {'1': '', '2': 'b', '3': 'c'}[rnd]
+out = {'1': f'/tmp/mut/{pid}', '2': f'/tmp/mut2/{pid}', '3': f'/tmp/mut3/{pid}'}[rnd]
 for l in open('/verif/properties.jsonl'):
     p = json.loads(l)
     if p['id'] == pid:
         break
 else:
     sys.exit("no such property")
-extra = (" Stay away from the single most obvious line for this property: look at helper functions, less-travelled branches and error paths, the secondary implementations of the same behaviour (generated code checked into the repository, the reflection-based codec, client side versus server side, signature-driven readers), state that two functions must keep consistent, and clean-up / shutdown paths. At least one of the three should involve code that is NOT in the file a reader would open first for this property." if round2 else "")
+extra = (" Stay away from the single most obvious line for this property: look at helper functions, less-travelled branches and error paths, the secondary implementations of the same behaviour (generated code checked into the repository, the reflection-based codec, client side versus server side, signature-driven readers), state that two functions must keep consistent, and clean-up / shutdown paths. At least one of the three should involve code that is NOT in the file a reader would open first for this property." if round2 else (" For this round, prefer changes of these kinds: (1) a change that is correct on its own but breaks an assumption another function relies on (state that two functions must keep consistent, a value computed in one place and checked in another); (2) a change in a clean-up, shutdown, error or retry path; (3) a change in a secondary implementation of the same behaviour (code generated and checked into the repository, the reflection-based codec, the client side when the server side is the obvious place, a helper package). Avoid one-token operator flips in the central function of the property: make the three changes look like refactorings, optimisations or hardening that a reviewer would approve." if round3 else ""))
 print(f"""You are helping test a verification effort on an open-source Go project, lugu/qiloop (a Go implementation of SoftBank's QiMessaging RPC protocol: wire format, type-signature codec, IDL parser and proxy/stub generator, client/server bus, service directory).
 
 Your own scratch git worktree of the project is at {wt} (detached HEAD of the project's current commit). Work ONLY inside {wt} and write your results to {out}/. Do NOT read or touch /repo, /verif, /root/.vp or other directories under /tmp/wt or /tmp/mut: your work must be independent.
